@@ -180,7 +180,7 @@ func concurrentCase(r *vk.Run, idx int) error {
 		} else {
 			emitBegin(b)
 		}
-		terms = append(terms, fmt.Sprintf("TOp (OLocked %d %s) None", t.hdr.ID, hx(staleOf(t.hdr))))
+		terms = append(terms, fmt.Sprintf("TOp (OLocked %d) None", t.hdr.ID))
 	}
 	terms = append(terms, "TOp OSync (Some "+obsTerm(o)+")")
 	coq := fmt.Sprintf("CScript %s true %s", cfgTerm(&cfg), joinSteps(terms))
